@@ -94,8 +94,16 @@ func decToMinDec(dec float64, latitude bool) string {
 		sign = ' '
 	}
 
-	deg := int(dec)
-	min := (dec - float64(deg)) * 60.0
+	deg := math.Abs(float64(int(dec)))
+	min := math.Abs((dec - float64(int(dec))) * 60.0)
+
+	// Round to the printed precision first, so that 59.99995 minutes and above
+	// carries into the degrees instead of being printed as 60.0000 minutes.
+	min = math.Round(min*10000) / 10000
+	if min >= 60 {
+		min -= 60
+		deg++
+	}
 
 	var format string
 	if latitude {
@@ -104,5 +112,5 @@ func decToMinDec(dec float64, latitude bool) string {
 		format = "%03.0f-%07.4f%c"
 	}
 
-	return fmt.Sprintf(format, math.Abs(float64(deg)), math.Abs(min), sign)
+	return fmt.Sprintf(format, deg, min, sign)
 }
